@@ -308,20 +308,133 @@ func (c *Ctx) execIf(st *State, x *ast.IfStmt) outcome {
 			return outcome{}
 		}
 	}
-	cond := c.condTerm(st, x.Cond)
-	if st.dead() {
-		return outcome{}
+	var thenSt, elseSt *State
+	if tS, fS, ok := c.splitCond(st, x.Cond); ok {
+		thenSt, elseSt = tS, fS
+	} else {
+		cond := c.condTerm(st, x.Cond)
+		if st.dead() {
+			return outcome{}
+		}
+		thenSt = st.clone()
+		thenSt.assume(c, cond)
+		elseSt = st
+		elseSt.assume(c, Not(cond))
 	}
-	thenSt := st.clone()
-	thenSt.assume(c, cond)
-	elseSt := st
-	elseSt.assume(c, Not(cond))
+	if pe := c.pathMode; pe != nil && pe.depth == c.inlineDepth && pe.loopDepth == c.loopDepth {
+		// split-paths: follow exactly one branch in this run (the other one is taken by another run)
+		if pe.next() {
+			if thenSt.dead() {
+				return outcome{normal: thenSt}
+			}
+			return c.execBlock(thenSt, x.Body.List)
+		}
+		if x.Else != nil {
+			return c.exec(elseSt, x.Else, "")
+		}
+		return outcome{normal: elseSt}
+	}
 	to := c.execBlock(thenSt, x.Body.List)
 	eo := outcome{normal: elseSt}
 	if x.Else != nil {
 		eo = c.exec(elseSt, x.Else, "")
 	}
 	return c.mergeOutcomes(to, eo)
+}
+
+// execBodyPaths runs the loop body once per path through its (top-level) if statements; the invariant and variant
+// obligations are raised per path. Returns the breaks of all runs merged and a dead normal state (the per-path
+// continuation states have been checked already).
+func (c *Ctx) execBodyPaths(iter *State, lp loopParts, ls *LoopSpec, ord int, haveDecr bool, decr0 Term, decrTy types.Type) outcome {
+	all := outcome{}
+	pending := [][]bool{nil}
+	savedMode := c.pathMode
+	defer func() { c.pathMode = savedMode }()
+	runs := 0
+	for len(pending) > 0 {
+		prefix := pending[len(pending)-1]
+		pending = pending[:len(pending)-1]
+		runs++
+		if runs > 64 {
+			unsupp("split-paths: more than 64 paths through the body of loop %d", ord)
+		}
+		pe := &pathEnum{choices: append([]bool{}, prefix...), depth: c.inlineDepth, loopDepth: c.loopDepth}
+		c.pathMode = pe
+		bo := c.execBlock(iter.clone(), lp.body)
+		c.pathMode = nil
+		// alternatives: every default ("then") decision made beyond the prefix can be flipped
+		for k := len(pe.choices) - 1; k >= len(prefix); k-- {
+			alt := append(append([]bool{}, pe.choices[:k]...), false)
+			pending = append(pending, alt)
+		}
+		cont := bo.normal
+		for _, k := range []string{"", lp.label} {
+			if s, ok := bo.conts[k]; ok && (k == "" || lp.label != "") {
+				if cont.dead() {
+					cont = s
+				} else {
+					cont = c.merge(cont, s)
+				}
+				delete(bo.conts, k)
+			}
+		}
+		if !cont.dead() {
+			if lp.post != nil {
+				lp.post(cont)
+			}
+			var auto []Term
+			if lp.auto != nil {
+				auto = lp.auto(cont)
+			}
+			c.goalMode++
+			pinvs, pcls, pfacts := c.invariantTerms(cont, ls, lp.bodyPos, auto)
+			c.goalMode--
+			for i, t := range pinvs {
+				c.oblige(cont, "inv-preserved", fmt.Sprintf("loop%d:path%d:%s", ord, runs, clauseLabel(pcls[i], i)), lp.pos, Implies(And(pfacts...), t), pcls[i].Text)
+			}
+			if haveDecr {
+				env := c.newEnv(cont, c.entry)
+				env.scopePos = lp.bodyPos
+				d1 := env.idxTerm(env.eval(ls.Decreases.Expr))
+				var goal Term
+				if c.mode == ModeBV && !isSigned(decrTy) {
+					goal = app(SBool, "bvult", d1, decr0)
+				} else {
+					goal = And(c.ile(c.idx(0), decr0), c.ilt(d1, decr0))
+				}
+				c.oblige(cont, "decreases", fmt.Sprintf("loop%d:path%d", ord, runs), lp.pos, goal, ls.Decreases.Text)
+			}
+		}
+		for k, v := range bo.breaks {
+			c.addJump(&all.breaks, k, v)
+		}
+		for k, v := range bo.conts {
+			c.addJump(&all.conts, k, v)
+		}
+	}
+	dead := iter.clone()
+	dead.pc = TFalse
+	all.normal = dead
+	return all
+}
+
+// pathEnum enumerates the paths through the if statements of a loop body (depth-first, "then" first).
+type pathEnum struct {
+	choices   []bool // decisions of this run, in execution order
+	pos       int
+	depth     int // inline depth of the loop (ifs of inlined callees are not split)
+	loopDepth int // loop nesting depth of the body (ifs inside nested loops are not split)
+}
+
+func (pe *pathEnum) next() bool {
+	if pe.pos < len(pe.choices) {
+		d := pe.choices[pe.pos]
+		pe.pos++
+		return d
+	}
+	pe.choices = append(pe.choices, true)
+	pe.pos++
+	return true
 }
 
 func (c *Ctx) execSwitch(st *State, x *ast.SwitchStmt, label string) outcome {
@@ -1188,7 +1301,14 @@ func (c *Ctx) execLoop(st *State, lp loopParts) outcome {
 	if lp.pre != nil {
 		lp.pre(iter)
 	}
-	bo := c.execBlock(iter, lp.body)
+	c.loopDepth++
+	defer func() { c.loopDepth-- }()
+	var bo outcome
+	if ls != nil && ls.SplitPaths {
+		bo = c.execBodyPaths(iter, lp, ls, ord, haveDecr, decr0, decrTy)
+	} else {
+		bo = c.execBlock(iter, lp.body)
+	}
 	// continue targets
 	cont := bo.normal
 	for _, k := range []string{"", lp.label} {
